@@ -3,6 +3,7 @@
 //! the real stdlib.  Arguments are *terms* (see Drv/C13.lean): JSON scalars and arrays,
 //! `{"$e":1}` = `error "x"` (only in lazy positions), `{"$fn":n}` = a function of n parameters,
 //! `{"$o":[layer,…]}` = an inheritance chain `{…} + {…}` whose fields carry `:`/`::`/`:::` and `+:`.
+//! `{"$sup":[layer,…],"k":k}` = the value of `super` bound inside layer k of that chain.
 //! The answer is the result dumped *lazily*: every array element / object field (hidden ones too,
 //! with their visibility) is evaluated on its own and a failing one is recorded as `{"$e":1}`.
 use std::collections::BTreeMap;
@@ -46,38 +47,25 @@ fn src(t: &Value) -> String {
 				if layers.is_empty() {
 					return "{}".to_string();
 				}
-				let parts: Vec<String> = layers
-					.iter()
-					.map(|l| {
-						let fs: Vec<String> = l
-							.as_array()
-							.expect("layer")
-							.iter()
-							.map(|f| {
-								let f = f.as_array().expect("field");
-								let vis = match f[1].as_str().expect("vis") {
-									"n" => ":",
-									"h" => "::",
-									_ => ":::",
-								};
-								// a name that is a string production becomes a computed field name
-								let name = if f[0].is_string() { f[0].to_string() } else { format!("[{}]", src(&f[0])) };
-								format!(
-									"{}{}{} {}",
-									name,
-									if f[2].as_bool().expect("plus") { "+" } else { "" },
-									vis,
-									src(&f[3])
-								)
-							})
-							.collect();
-						format!("{{{}}}", fs.join(", "))
-					})
-					.collect();
+				let parts: Vec<String> = layers.iter().map(|l| layer_src(l, false)).collect();
 				if parts.len() == 1 {
 					parts[0].clone()
 				} else {
 					format!("({})", parts.join(" + "))
+				}
+			} else if let Some(layers) = m.get("$sup") {
+				// the VALUE of `super` taken inside layer k: `(L0 + … + {local s = super, …Lk…, '$r':: s} + …)['$r']`
+				let layers = layers.as_array().expect("$sup");
+				let k = m.get("k").and_then(Value::as_u64).expect("k") as usize;
+				assert!(k >= 1 && k < layers.len(), "cut inside the chain");
+				let parts: Vec<String> = layers.iter().enumerate().map(|(i, l)| layer_src(l, i == k)).collect();
+				let base = format!("({})['$r']", parts.join(" + "));
+				match m.get("ext").and_then(Value::as_array) {
+					Some(ext) if !ext.is_empty() => {
+						let es: Vec<String> = ext.iter().map(|l| layer_src(l, false)).collect();
+						format!("({base} + {})", es.join(" + "))
+					}
+					_ => base,
 				}
 			} else {
 				panic!("bad term {t}")
@@ -85,6 +73,29 @@ fn src(t: &Value) -> String {
 		}
 		other => other.to_string(),
 	}
+}
+
+/// source of one layer; `cut`: the layer binds `local s = super` and exports it as the hidden field `$r`
+fn layer_src(l: &Value, cut: bool) -> String {
+	let mut fs: Vec<String> = Vec::new();
+	if cut {
+		fs.push("local s = super".to_string());
+	}
+	for f in l.as_array().expect("layer") {
+		let f = f.as_array().expect("field");
+		let vis = match f[1].as_str().expect("vis") {
+			"n" => ":",
+			"h" => "::",
+			_ => ":::",
+		};
+		// a name that is a string production becomes a computed field name
+		let name = if f[0].is_string() { f[0].to_string() } else { format!("[{}]", src(&f[0])) };
+		fs.push(format!("{}{}{} {}", name, if f[2].as_bool().expect("plus") { "+" } else { "" }, vis, src(&f[3])));
+	}
+	if cut {
+		fs.push("'$r':: s".to_string());
+	}
+	format!("{{{}}}", fs.join(", "))
 }
 
 /// source text of a string production (see Drv/C13.lean): the same text written so that the
@@ -209,6 +220,7 @@ fn source(op: &Value) -> String {
 			a[0]
 		),
 		"equalsSame" => format!("local a = {}; std.equals(a, a)", a[0]),
+		"value" => a[0].clone(),
 		"opEq" => format!("({}) == ({})", a[0], a[1]),
 		"opNe" => format!("({}) != ({})", a[0], a[1]),
 		"opLt" => format!("({}) < ({})", a[0], a[1]),
@@ -912,6 +924,187 @@ fn mutants_small(cs: &[char], rng: &mut Rng) -> Vec<char> {
 	m
 }
 
+// ---------------------------------------------------------------------------------------------
+// (T) objects that are the VALUE of a standalone `super` (jrsonnet extension `local s = super`):
+// seen from layer k of an n-layer chain it is the object made of the layers below k, whatever
+// layer k and the layers above it declare (the bodies are closed, so `self` does not matter).
+
+fn sup_of(layers: Vec<Vec<Value>>, k: usize, ext: Vec<Vec<Value>>) -> Value {
+	if ext.is_empty() {
+		json!({"$sup": layers, "k": k})
+	} else {
+		json!({"$sup": layers, "k": k, "ext": ext})
+	}
+}
+/// the same object written as a plain chain
+fn sup_flat(t: &Value) -> Value {
+	let k = t["k"].as_u64().expect("k") as usize;
+	let mut ls: Vec<Value> = t["$sup"].as_array().expect("$sup")[..k].to_vec();
+	if let Some(e) = t.get("ext").and_then(Value::as_array) {
+		ls.extend(e.iter().cloned());
+	}
+	json!({ "$o": ls })
+}
+fn sup_keys(t: &Value) -> Vec<String> {
+	let mut keys: Vec<String> = Vec::new();
+	for part in ["$sup", "ext"] {
+		if let Some(layers) = t.get(part).and_then(Value::as_array) {
+			for l in layers {
+				for f in l.as_array().expect("layer") {
+					let n = f[0].as_str().expect("name").to_string();
+					if !keys.contains(&n) {
+						keys.push(n);
+					}
+				}
+			}
+		}
+	}
+	keys.push("zz".to_string());
+	keys
+}
+/// a layer over a small name pool, so that re-declarations across the cut are the rule
+fn gen_layer_dense(rng: &mut Rng) -> Vec<Value> {
+	let mut out = Vec::new();
+	for name in ["a", "b", "c", "é", "p", "q"] {
+		if !rng.chance(1, 2) {
+			continue;
+		}
+		let vis = *rng.pick(&["n", "n", "h", "u"]);
+		let (plus, v) = match name {
+			"p" => (rng.chance(1, 2), if rng.chance(1, 8) { e() } else { json!(rng.range(-2, 3)) }),
+			"q" => (
+				rng.chance(1, 2),
+				if rng.chance(1, 8) { e() } else { Value::Array((0..rng.below(3)).map(|_| gen_val(rng, 0, true)).collect()) },
+			),
+			_ => (false, gen_val(rng, 1, true)),
+		};
+		out.push(fld(name, vis, plus, v));
+	}
+	out
+}
+
+impl Gen<'_> {
+	/// every listing and per-name function, the value itself, equality with the plain chain
+	fn sup_ops(&mut self, t: &Value, keys: &[String], full: bool) {
+		self.emit("value", vec![t.clone()], None);
+		self.object_ops(t, keys);
+		if full {
+			self.map_ops(t);
+			self.value_ops(t);
+			let flat = sup_flat(t);
+			self.eq_ops(t, &flat);
+			self.eq_ops(&flat, t);
+			self.emit("opEq", vec![t.clone(), flat.clone()], None);
+			for k in keys {
+				self.emit("opIn", vec![json!(k), t.clone()], None);
+				self.emit("opIndex", vec![t.clone(), json!(k)], None);
+			}
+			let patch = o1(&[("a", "n", json!(9)), ("c", "n", Value::Null), ("p", "n", o1(&[("x", "n", json!(1))]))]);
+			self.emit("mergePatch", vec![t.clone(), patch.clone()], None);
+			self.emit("mergePatch", vec![patch, t.clone()], None);
+			self.emit("mergePatch", vec![flat, t.clone()], None);
+		}
+	}
+
+	fn super_families(&mut self, rng: &mut Rng, thorough: bool) -> Value {
+		let start = self.w.n;
+		let choices = ["-", "n", "h", "u"];
+		let mut terms = 0usize;
+		// (T1) one field `a` below the cut / in the layer that takes `super` / above it, every
+		// visibility combination; neighbours only below (b visible, c hidden), only in the cut layer
+		// (d), only above (e), and `p` with `+:` on all three levels
+		for c0 in choices {
+			for c1 in choices {
+				for c2 in choices {
+					let mut layers: Vec<Vec<Value>> = Vec::new();
+					for (i, c) in [c0, c1, c2].iter().enumerate() {
+						let mut l = Vec::new();
+						if *c != "-" {
+							l.push(fld("a", c, false, json!(i as i64 + 1)));
+						}
+						match i {
+							0 => {
+								l.push(fld("b", "n", false, json!("x")));
+								l.push(fld("c", "h", false, e()));
+								l.push(fld("p", "n", false, json!(1)));
+							}
+							1 => {
+								l.push(fld("d", "n", false, json!(4)));
+								l.push(fld("p", "h", true, json!(10)));
+								l.push(fld("b", "h", false, json!("y")));
+							}
+							_ => {
+								l.push(fld("e", "n", false, json!(5)));
+								l.push(fld("p", "u", true, json!(100)));
+								l.push(fld("c", "u", false, json!(6)));
+							}
+						}
+						layers.push(l);
+					}
+					let t = sup_of(layers.clone(), 1, vec![]);
+					let keys = sup_keys(&t);
+					self.sup_ops(&t, &keys, true);
+					terms += 1;
+					// the same `super` value extended by a further layer
+					let ext = vec![fld("a", "n", false, json!(7)), fld("p", "n", true, json!(1000)), fld("b", "u", false, json!("z"))];
+					let t = sup_of(layers, 1, vec![ext]);
+					self.sup_ops(&t, &keys, false);
+					terms += 1;
+				}
+			}
+		}
+		// (T1') two layers below the cut: every history (below, below, cut, above) of `a`, cut at 2
+		// and cut at 1 of the same chain
+		for c0 in choices {
+			for c1 in choices {
+				for c2 in choices {
+					for c3 in choices {
+						let mut layers: Vec<Vec<Value>> = Vec::new();
+						for (i, c) in [c0, c1, c2, c3].iter().enumerate() {
+							let mut l = Vec::new();
+							if *c != "-" {
+								l.push(fld("a", c, false, json!(i as i64 + 1)));
+							}
+							if i == 0 {
+								l.push(fld("b", "n", false, json!("x")));
+							}
+							layers.push(l);
+						}
+						let keys: Vec<String> = ["a", "b", "zz"].iter().map(|s| (*s).to_string()).collect();
+						for k in [2usize, 1, 3] {
+							if k == 2 || thorough || rng.chance(1, 4) {
+								let t = sup_of(layers.clone(), k, vec![]);
+								self.sup_ops(&t, &keys, false);
+								terms += 1;
+							}
+						}
+					}
+				}
+			}
+		}
+		// (T2) seeded chains of 2..5 layers over a dense name pool, cut anywhere, sometimes extended
+		let mut cut_hist: BTreeMap<String, usize> = BTreeMap::new();
+		let n_rand = if thorough { 4000 } else { 400 };
+		for i in 0..n_rand {
+			let n = 2 + rng.below(4);
+			let mut layers: Vec<Vec<Value>> = (0..n).map(|_| gen_layer_dense(rng)).collect();
+			let k = 1 + rng.below(n - 1);
+			// `{} + {local s = super}`: a chain whose layers below the cut are all empty has no `super`
+			// at all in jrsonnet ("no super found"); excluded — some layer below declares a field
+			if layers[..k].iter().all(Vec::is_empty) {
+				layers[0].push(fld("c", "h", false, json!(0)));
+			}
+			let ext: Vec<Vec<Value>> = if rng.chance(1, 4) { (0..1 + rng.below(2)).map(|_| gen_layer_dense(rng)).collect() } else { vec![] };
+			*cut_hist.entry(format!("{k}/{n}+{}", ext.len())).or_default() += 1;
+			let t = sup_of(layers, k, ext);
+			let keys = sup_keys(&t);
+			self.sup_ops(&t, &keys, i % 2 == 0);
+			terms += 1;
+		}
+		json!({"cases": self.w.n - start, "terms": terms, "random_cut/layers+ext": cut_hist})
+	}
+}
+
 fn keys_for(o: &Value, rng: &mut Rng, all: bool) -> Vec<String> {
 	let mut keys: Vec<String> = Vec::new();
 	if let Some(layers) = o.get("$o").and_then(Value::as_array) {
@@ -1223,17 +1416,21 @@ pub fn run(opts: &Opts) {
 	// ---- (S) strings in every internal representation ------------------------------------------
 	let strings_meta = g.string_families(&mut rng, thorough);
 
+	// ---- (T) values of a standalone `super` ---------------------------------------------------
+	let super_meta = g.super_families(&mut rng, thorough);
+
 	let cases = g.w.n;
 	let meta = json!({
 		"engine": "c13",
 		"cases": cases,
-		"rule": "every visibility history (absent/:/::/:::)^3 of one field x all object functions x keys {visible,hidden,absent}; all pairs of 23 fixed targets x 31 fixed patches for mergePatch; all pairs of 55 fixed values for equals/primitiveEquals/assertEqual; xor/xnor over {true,false,null,1,'a'}^2; wrong-typed arguments; seeded random inheritance chains (<=3 layers, <=4 fields, nested depth 2, `+:` on number/array fields, failing thunks in lazy positions) with patches derived from the target; STRINGS: 16 fixed texts of 98..250 bytes (ASCII, 2/3/4-byte characters) each as ~40 representations (flat literal; `+` ropes cut at 1, middle-10, middle, middle+10, end-1, random; 3- and 4-piece ropes left-deep / right-deep / balanced; empty pieces; std.format / `%` / std.join / std.repeat / std.char / std.toString / std.substr / slice / identity call / local / field / element producers) compared pairwise through equals, ==, !=, <, <=, >, >=, primitiveEquals, assertEqual; against 9 near texts (one char changed at start / middle / end, one char fewer or more, rotated); inside arrays and object fields; as computed field names probed through objectHas/objectHasAll/in/index/get/objectFields/objectRemoveKey/mapWithKey/equals; std.setMember and std.member over sets of near texts; type functions; seeded random texts over {a,b,x,é,😀,日,space,0}, cuts, shapes, producers and operators",
+		"rule": "every visibility history (absent/:/::/:::)^3 of one field x all object functions x keys {visible,hidden,absent}; all pairs of 23 fixed targets x 31 fixed patches for mergePatch; all pairs of 55 fixed values for equals/primitiveEquals/assertEqual; xor/xnor over {true,false,null,1,'a'}^2; wrong-typed arguments; seeded random inheritance chains (<=3 layers, <=4 fields, nested depth 2, `+:` on number/array fields, failing thunks in lazy positions) with patches derived from the target; STRINGS: 16 fixed texts of 98..250 bytes (ASCII, 2/3/4-byte characters) each as ~40 representations (flat literal; `+` ropes cut at 1, middle-10, middle, middle+10, end-1, random; 3- and 4-piece ropes left-deep / right-deep / balanced; empty pieces; std.format / `%` / std.join / std.repeat / std.char / std.toString / std.substr / slice / identity call / local / field / element producers) compared pairwise through equals, ==, !=, <, <=, >, >=, primitiveEquals, assertEqual; against 9 near texts (one char changed at start / middle / end, one char fewer or more, rotated); inside arrays and object fields; as computed field names probed through objectHas/objectHasAll/in/index/get/objectFields/objectRemoveKey/mapWithKey/equals; std.setMember and std.member over sets of near texts; type functions; seeded random texts over {a,b,x,é,😀,日,space,0}, cuts, shapes, producers and operators; STANDALONE SUPER: the value of `super` (`local s = super`) taken inside layer k of a chain must be the object of the layers below k: every visibility combination (absent/:/::/:::) of one field below the cut x in the cut layer x above it (and with two layers below), neighbours only below / only in the cut layer / only above, `+:` on all levels, the value extended by a further layer, seeded chains of 2..5 layers over a 6-name pool cut anywhere; all listing functions, all per-name functions, the value itself through ObjValue, mapWithKey, prune, mergePatch, equality with the plain chain, in / index",
 		"functions": g.hist,
 		"outcomes": g.outcome,
 		"object_args_by_layer_count": g.layer_hist,
 		"cases_with_hidden_fields": g.with_hidden,
 		"cases_with_failing_thunks": g.with_err_leaf,
 		"strings": strings_meta,
+		"standalone_super": super_meta,
 		"seed": opts.seed,
 	});
 	g.w.finish(meta, &opts.out);
